@@ -567,6 +567,32 @@ fn wrap_case<B: Backend>(cx: &mut Ctx, rng: &mut Prng, pairs: &[keys::Pair]) {
             }
         }
     }
+    // a key wrapped under itself (wk = ptk): unusual, legitimate, and what the sibling backend and the specification produce for it
+    if kind == "pie" && ktype == "local" {
+        let mut inp: Inputs = HashMap::new();
+        inp.insert("wk".into(), ptk.clone());
+        inp.insert("ptk".into(), ptk.clone());
+        match wrap_generic::<B>(kind, ktype, &ptk, &ptk, None) {
+            Ok(text) => {
+                let blob = text.strip_prefix(&hdr).and_then(crate::b64::dec).unwrap_or_default();
+                let at = c["nonce_at"].as_u64().unwrap() as usize;
+                match blob.get(at..at + 32) {
+                    Some(n) => {
+                        inp.insert("n".into(), n.to_vec());
+                        cx.equal("backward", &blob, &ev(fam, &c["data"], &inp), json!({"self_wrap": true}));
+                    }
+                    None => cx.emit("backward", "equal", false, json!({"real_len": blob.len(), "self_wrap": true})),
+                }
+            }
+            Err(e) => cx.emit("backward", "equal", false, json!({"real_error": e, "self_wrap": true})),
+        }
+        inp.insert("n".into(), rng.bytes(32));
+        if let Ok(b2) = ev(fam, &c["data"], &inp) {
+            let t2 = format!("{hdr}{}", crate::b64::enc(&b2));
+            let u = catch_unwind(AssertUnwindSafe(|| PieWrappedKey::<B::V, Local>::from_str(&t2).and_then(|w| w.unwrap(&key_from_bytes::<B::V, Local>(&ptk)?)).map(|k| key_bytes(&k))));
+            cx.emit("reference", "accepted-same", matches!(&u, Ok(Ok(k)) if *k == ptk), json!({"self_wrap": true, "accepted": matches!(&u, Ok(Ok(_)))}));
+        }
+    }
     // forward with scripted randomness (getrandom-0.3 backends): the drawn bytes are the embedded fields
     if B::GETRANDOM03 {
         let script = rng.bytes(64);
